@@ -75,19 +75,19 @@ fn referrer(name: &str, imports: &[String], written: &str, extra: Option<&str>, 
     d
 }
 
-fn written_forms(pkg: &str) -> Vec<String> {
+fn written_forms(pkg: &str, tname: &str) -> Vec<String> {
     let segs: Vec<&str> = pkg.split('.').collect();
-    let mut v = vec!["Tgt".to_string(), format!("{pkg}.Tgt")];
+    let mut v = vec![tname.to_string(), format!("{pkg}.{tname}")];
     if segs.len() >= 2 {
-        v.push(format!("{}.Tgt", segs[segs.len() - 1]));
+        v.push(format!("{}.{tname}", segs[segs.len() - 1]));
     }
     v
 }
 
-fn make_case(ki: usize, pi: usize, position: usize, ctx: usize, wi: usize, h: History, split: bool) -> Option<Case> {
+fn make_case(ki: usize, pi: usize, position: usize, ctx: usize, wi: usize, h: History, split: bool, tname: &str) -> Option<Case> {
     let kind = KINDS[ki];
     let pkg = PKGS[pi];
-    let forms = written_forms(pkg);
+    let forms = written_forms(pkg, tname);
     let written = forms.get(wi)?;
     let other_kind = KINDS[(ki + 1) % 3];
     // `split`: every token of the target and of the referrers on its own line (layout inside
@@ -105,14 +105,14 @@ fn make_case(ki: usize, pi: usize, position: usize, ctx: usize, wi: usize, h: Hi
         }
     };
     let files = vec![
-        mk("tgt", target(kind, pkg, "Tgt")),
-        ProjFile::from_doc("atgt", target(ItemKind::Enum, pkg, "ATgt")),
-        ProjFile::from_doc("other", target(other_kind, "zz", "Tgt")),
+        mk("tgt", target(kind, pkg, tname)),
+        ProjFile::from_doc("atgt", target(ItemKind::Enum, pkg, &format!("A{tname}"))),
+        ProjFile::from_doc("other", target(other_kind, "zz", tname)),
         mk(
             "ref1",
-            referrer("Ref1", &[format!("{pkg}.Tgt"), format!("{pkg}.ATgt")], written, Some("ATgt"), position, ctx),
+            referrer("Ref1", &[format!("{pkg}.{tname}"), format!("{pkg}.A{tname}")], written, Some(&format!("A{tname}")), position, ctx),
         ),
-        mk("ref2", referrer("Ref2", &["zz.Tgt".to_string()], "Tgt", None, position, ctx)),
+        mk("ref2", referrer("Ref2", &[format!("zz.{tname}")], tname, None, position, ctx)),
     ];
     let facts = facts_of(&files);
     let mut expect = serde_json::Map::new();
@@ -162,7 +162,7 @@ fn make_case(ki: usize, pi: usize, position: usize, ctx: usize, wi: usize, h: Hi
         prop: PROP.into(),
         kind: format!("{kind:?}"),
         label: format!(
-            "target {kind:?} {pkg}.Tgt referenced as `{written}` in context {ctx} position {} history {h:?}",
+            "target {kind:?} {pkg}.{tname} referenced as `{written}` in context {ctx} position {} history {h:?}",
             ["return", "argument", "field", "constant"][position]
         ),
         files: files.iter().map(|f| (f.id.clone(), f.text.clone())).collect(),
@@ -233,17 +233,21 @@ pub fn check_case(case: &Case) -> CheckResult {
 
 pub fn run(tier: Tier, seed: u64) -> i32 {
     let stats = Stats::new(PROP, tier, seed);
-    let nctx = 7;
+    let nctx = tier.pick(4, 7);
     let hists: Vec<History> = match tier {
         Tier::Quick => vec![History::Plain, History::Replaced, History::ExtraBroken],
         Tier::Thorough => vec![History::Plain, History::Replaced, History::ExtraRemoved, History::Reversed, History::ExtraBroken],
     };
-    let n = 3 * 3 * 4 * nctx * 3 * hists.len() * 2;
+    // target names: an ordinary one and one that equals a built-in's simple name
+    let names = ["Tgt", "IBinder", "ParcelableHolder"];
+    let n = 3 * 3 * 4 * nctx * 3 * hists.len() * 2 * names.len();
     super::drive(
         &stats,
         n,
         5,
         |i| {
+            let tname = names[i % names.len()];
+            let i = i / names.len();
             let split = i % 2 == 1;
             let i = i / 2;
             let h = hists[i % hists.len()];
@@ -253,7 +257,7 @@ pub fn run(tier: Tier, seed: u64) -> i32 {
             let position = (i / (3 * nctx)) % 4;
             let pi = (i / (12 * nctx)) % 3;
             let ki = i / (36 * nctx);
-            let mut c = make_case(ki, pi, position, ctx, wi, h, split)?;
+            let mut c = make_case(ki, pi, position, ctx, wi, h, split, tname)?;
             if split {
                 c.label.push_str(" (referrers laid out one token per line)");
             }
@@ -269,7 +273,7 @@ pub fn run(tier: Tier, seed: u64) -> i32 {
     let hit = stats.outcome_count("type-symbol-resolving-to-item");
     finish(
         &stats,
-        "five-file projects: a target item of every kind in packages of depth 1-3 (with members of every kind), a same-package item whose name has the target's name as suffix, a same-named item of another kind in another package, and two referrers; the target is referenced in return / argument / field / constant position, bare and nested to depth 3, written simple / partially / fully qualified; for every symbol of every file get_qualified_name / get_name are compared with the statement (item: package.Name = registration key = qualified name of every type symbol resolving to it; members Owner::member; imports and package dotted); distinct_nontrivial counts distinct project configurations",
+        "five-file projects: a target item of every kind (named ordinarily or like a built-in) in packages of depth 1-3 (with members of every kind), a same-package item whose name has the target's name as suffix, a same-named item of another kind in another package, and two referrers; the target is referenced in return / argument / field / constant position, bare and nested to depth 3, written simple / partially / fully qualified; for every symbol of every file get_qualified_name / get_name are compared with the statement (item: package.Name = registration key = qualified name of every type symbol resolving to it; members Owner::member; imports and package dotted); distinct_nontrivial counts distinct project configurations",
         &["expected names come from the document model and the reference resolution rule; a file whose traversal order differs from the reference is skipped here (C15's business) and counted"],
         &|c| check_case(c).to_result(),
         &[("type symbols resolving to items were compared", hit > 0)],
